@@ -231,6 +231,7 @@ func init() {
 					o.Background, o.Threads, o.Writes, o.OwnSlots = true, 1+r.Intn(2), 5+r.Intn(4), true
 				case 3:
 					o.Writes = 10 + r.Intn(6)
+					o.Destroy = true // a Destroy request in mid-history: the WAL then holds transactions for files that are gone
 				}
 				h := genHistory(r, o)
 				if id == "C03" && c.Case%5 == 4 {
